@@ -55,7 +55,7 @@ deriving Repr, DecidableEq
 structure SchedV1 where
   name : String := ""
   crontab : String := ""
-  crontabOK : Bool := true          -- `cron.Parse` accepts it
+  parseOK : Bool := true            -- `cron.Parse` accepts it (consulted only when no step is zero)
   allowFailure : Bool := false
   includes : List String := []
   queue : String := ""
@@ -146,6 +146,44 @@ deriving Repr, DecidableEq
 
 /-! ## util.go -/
 
+/-- `unicode.IsSpace`. -/
+def isSpaceGo (c : Char) : Bool :=
+  c == ' ' || c == '\t' || c == '\n' || c == '\r' || c.val == 0x0b || c.val == 0x0c || c.val == 0x85 || c.val == 0xA0 ||
+  c.val == 0x1680 || (0x2000 ≤ c.val && c.val ≤ 0x200A) || c.val == 0x2028 || c.val == 0x2029 || c.val == 0x202F ||
+  c.val == 0x205F || c.val == 0x3000
+
+/-- Split a character list at every character satisfying `p` (`strings.Split` for one-character
+separators: empty pieces are kept). -/
+def splitAt (p : Char → Bool) : List Char → List (List Char)
+  | [] => [[]]
+  | c :: cs =>
+    match splitAt p cs with
+    | [] => [[]]                      -- unreachable: the result is never empty
+    | x :: xs => if p c then [] :: x :: xs else (c :: x) :: xs
+
+/-- `strings.Fields`. -/
+def fieldsGo (s : List Char) : List (List Char) := (splitAt isSpaceGo s).filter (fun f => !f.isEmpty)
+
+/-- `strconv.Atoi(s)` succeeds with value 0: an optional sign followed by one or more `0`. -/
+def atoiIsZero (s : List Char) : Bool :=
+  let body := match s with
+    | '+' :: r => r
+    | '-' :: r => r
+    | r => r
+  !body.isEmpty && body.all (· == '0')
+
+/-- The loop of `ParseCrontab` before it calls the cron library: some field has an expression
+`range/step` (exactly one slash) whose step is the number zero. -/
+def zeroStep (crontab : String) : Bool :=
+  (fieldsGo crontab.toList).any (fun f =>
+    (splitAt (· == ',') f).any (fun e =>
+      match splitAt (· == '/') e with
+      | [_, st] => atoiIsZero st
+      | _ => false))
+
+/-- `ParseCrontab`: reject a zero step, then ask the cron library. -/
+def parseCrontabOK (crontab : String) (parseOK : Bool) : Bool := !zeroStep crontab && parseOK
+
 /-- `MergeArrays` as written: a map `union` marks the elements of `a2`; every element of `a1` is
 appended and unmarked; then the still-marked elements of `a2` are appended and unmarked. The map is the
 list of currently marked strings. -/
@@ -221,7 +259,7 @@ def convertSched (s : SchedV1) : SchedEff :=
 
 /-- `CheckSchedule`. -/
 def checkSched (kubes : List KubeEff) (s : SchedV1) : Bool :=
-  s.crontabOK && (s.includes.length == 0 || checkIncludes kubes s.includes)
+  parseCrontabOK s.crontab s.parseOK && (s.includes.length == 0 || checkIncludes kubes s.includes)
 
 def schedLoop (kubes : List KubeEff) : Nat → List SchedV1 → Except Err (List SchedEff)
   | _, [] => .ok []
@@ -333,7 +371,7 @@ def convertV1Unrepaired (defaultPolicy : String) (d : DocV1) : Except Err Effect
 structure SchedV0 where
   name : String := ""
   crontab : String := ""
-  crontabOK : Bool := true
+  parseOK : Bool := true
   allowFailure : Bool := false
 deriving Repr, DecidableEq
 
@@ -375,7 +413,8 @@ def convertKubeV0 (k : KubeV0) (evs : List String) : KubeEff :=
 def schedLoopV0 : Nat → List SchedV0 → Except Err (List SchedEff)
   | _, [] => .ok []
   | i, s :: ss =>
-    if s.crontabOK then (schedLoopV0 (i + 1) ss).map (convertSchedV0 s :: ·) else .error (.schedule i)
+    if parseCrontabOK s.crontab s.parseOK then (schedLoopV0 (i + 1) ss).map (convertSchedV0 s :: ·)
+    else .error (.schedule i)
 
 def kubeLoopV0 : Nat → List KubeV0 → Except Err (List KubeEff)
   | _, [] => .ok []
